@@ -122,6 +122,21 @@ def _default_pure_calls():
             return ("ref", v[1] + ".^")
         return None
 
+    def variant_pred(names):
+        def f(w, env, args):
+            v = args[0]
+            if isinstance(v, tuple) and v[0] == "ref":
+                v = env.get(v[1])
+            if isinstance(v, tuple) and v[0] == "var":
+                return 1 if v[2] in names else 0
+            return None
+        return f
+
+    t["<core::option::Option>::is_some"] = variant_pred({"Some"})
+    t["<core::option::Option>::is_none"] = variant_pred({"None"})
+    t["<core::result::Result>::is_ok"] = variant_pred({"Ok"})
+    t["<core::result::Result>::is_err"] = variant_pred({"Err"})
+
     for ptr in ("alloc::rc::Rc", "alloc::boxed::Box", "rsjsonnet_lang::gc::GcView", "alloc::sync::Arc"):
         t["<%s as core::ops::deref::Deref>::deref" % ptr] = smart_deref
     return t
@@ -704,6 +719,25 @@ def std_wrapper_result(w, t, env, args, name, dst):
                 _copy_payload(env, "%s@%s.0" % (src, sv), "%s@%s.0" % (dst, dv))
                 return ("var", dadt, dv)
             return ("var", dadt, dother)
+        return None
+    if name == "<core::option::Option>::map" and isinstance(a0, tuple) and a0[0] == "var":
+        if a0[2] == "None":
+            return ("var", "core::option::Option", "None")
+        # evaluate a constant-returning closure (`.map(|_| SomeEnum::Variant)`)
+        if len(xs) >= 2 and "t" in xs[1]:
+            cty = w.body.ty(xs[1]["t"])
+            if cty["k"] == "closure":
+                clo = w.F.fn_opt(cty["d"])
+                if clo is not None and len(clo.body.blocks) <= 6:
+                    w2 = Walker(w.F, clo.body, want_ret=True)
+                    outs = w2.run(0, {})
+                    rets = [o for o in outs if o[0] == "return"]
+                    if len(outs) == 1 and len(rets) == 1:
+                        d = dict(rets[0][2] or ())
+                        for k2, v2 in d.items():
+                            if not (isinstance(v2, tuple) and v2 and v2[0] == "ref"):
+                                env["%s@Some.0%s" % (dst, k2[1:])] = v2
+                        return ("var", "core::option::Option", "Some")
         return None
     if name.endswith("core::ops::try_trait::Try>::branch"):
         if isinstance(a0, tuple) and a0[0] == "var":
